@@ -24,4 +24,8 @@ theorem C03_gen_batchLoopOverRequest : Generated.batchLoopOverRequest = some tru
 /-- `_safe_jdumps`: a response that cannot be serialised is caught per response (`safeJdumps`). -/
 theorem C03_gen_safeJdumpsGuarded : Generated.safeJdumpsGuarded = some true := by decide
 
+/-- The id a replaced response keeps is the response's id exactly when it can be serialised on its own
+    (`keptId`): the id echo of `C03_answer_id` / `C03_unusable_id_never_sent` rests on it. -/
+theorem C03_gen_safeJdumpsIdProbe : Generated.safeJdumpsIdProbe = some true := by decide
+
 end JRV.Props
